@@ -31,6 +31,14 @@ FreeRot(b) ==
     /\ last' = [valid |-> TRUE, pre |-> s, post |-> r.s, reinit |-> b, now |-> now, ok |-> r.ok]
     /\ UNCHANGED <<now, enrolled, chains, lastEnr>>
 
+\* "faulty": as "free", with a storage fault at one step of the call and/or a different certificate lifetime for the call
+Lifetimes == {L, L, 2 * L, 3 * L, (L + 1) \div 2}
+FaultyRot(b, f, lx) ==
+  LET r == RotateF(s, now, [P EXCEPT !.L = lx], b, nid, f) IN
+    /\ s' = r.s /\ nid' = nid + r.minted /\ lastRot' = now
+    /\ last' = NoLast
+    /\ UNCHANGED <<now, enrolled, chains, lastEnr>>
+
 GStep ==
   /\ Len(hist) < Depth
   /\ IF GMode = "cadence" THEN
@@ -40,6 +48,11 @@ GStep ==
               /\ ~IsEmpty(s) /\ now + d - lastRot <= R /\ (enrolled => now + d - lastEnr <= N)
               /\ FreeTick(d) /\ hist' = Append(hist, [op |-> "Tick", d |-> d])
         \/ (Enroll /\ hist' = Append(hist, [op |-> "Enroll"]))
+     ELSE IF GMode = "faulty" THEN
+        \/ \E b \in {RandomElement({FALSE, FALSE, TRUE})}, f \in {RandomElement({"none", "none", "remove", "load", "store"})}, lx \in {RandomElement(Lifetimes)} :
+              (FaultyRot(b, f, lx) /\ hist' = Append(hist, [op |-> "Rotate", reinit |-> b, fault |-> f, Lx |-> lx]))
+        \/ \E d \in {RandomElement(1..(2 * L))} : (FreeTick(d) /\ hist' = Append(hist, [op |-> "Tick", d |-> d]))
+        \/ \E d \in {RandomElement(1..2)} : (FreeTick(d) /\ hist' = Append(hist, [op |-> "Tick", d |-> d]))
      ELSE
         \/ \E b \in {RandomElement({FALSE, FALSE, FALSE, TRUE})} : (FreeRot(b) /\ hist' = Append(hist, [op |-> "Rotate", reinit |-> b]))
         \/ \E d \in {RandomElement(1..(2 * L))} : (FreeTick(d) /\ hist' = Append(hist, [op |-> "Tick", d |-> d]))
